@@ -297,6 +297,22 @@ Theorem C10_memory_guarded_partial : C10_memory_statement Guarded.
 Proof. exact memory_guarded. Qed.
 Print Assumptions C10_memory_guarded_partial.
 
+(* the locations of the statement: sc.packages and the Schemas map of each package are
+   distinct (pk assigns type names to packages; here odd / even names), registered, and one
+   To per RefSchema.  Two threads that work on different packages touch different Schemas
+   maps but the same sc.packages and registered: without the lock the first race of the run
+   below is on registered (positions 0 / 6); with the lock there is none *)
+Example C10_memory_example :
+  let pk : name -> N := fun n => N.modulo n 2 in
+  let g : graph := [(1, [3]); (3, []); (2, [4]); (4, [])] in
+  let sched := [0; 0; 0; 1; 1; 1; 0; 1; 0; 1; 0; 1; 0; 1; 0; 1]%nat in
+  first_race (events Unguarded pk 2 g [[1]; [2]] sched) = Some (0, 6)%nat /\
+  first_race (events Guarded pk 2 g [[1]; [2]] sched) = None /\
+  firstn 9 (events Guarded pk 2 g [[1]; [2]] sched) =
+    [EAcq 0; EWr 0 LReg; ERd 0 LPkgs; EWr 0 LPkgs; ERd 0 (LSchemas 1); EWr 0 (LSchemas 1); EWr 0 LReg;
+     ERd 0 LPkgs; EWr 0 LPkgs]%nat.
+Proof. cbv zeta. repeat split; vm_compute; reflexivity. Qed.
+
 (* the full statement holds of the guarded discipline, which is the one the code follows *)
 Theorem C10_full_for_code : C10_full_statement code_disc.
 Proof. exact full_for_code. Qed.
